@@ -78,6 +78,8 @@ type Conn struct {
 	closing bool
 	// Set to 1 under writeFrameMu once a close frame has been written.
 	closeFrameSent int32
+	// The status code of the close frame received from the peer, 0 if none yet.
+	closeFrameReceived int32
 
 	pingCounter   int32
 	activePingsMu sync.Mutex
